@@ -40,3 +40,50 @@ def input_type_size(t, crate, modpath, named_size):
             except rustlay.LayoutError:
                 return None
     return None
+
+
+def rustc_layout_validation(prop, cases, impl, tier, sample_quick=30):
+    """second phase shared by C01 / C02: the REAL compiler (nightly, `no_core`, target {i686,x86_64}-pc-windows-msvc –
+    the pointer width of the case) evaluates, for a sample of accepted worlds (all of them in the thorough tier),
+    `size_of` / `align_of` / `offset_of` of every emitted item against (a) the oracle's layout model and (b) the size and
+    alignment pyxis resolved.  -> (findings, info)"""
+    from concurrent.futures import ThreadPoolExecutor
+    from .. import o4
+    fs = []
+    info = {'dist': [], 'compared': 0, 'nontrivial_hashes': []}
+    jobs = []
+    for c in cases:
+        io = impl.get(c[1], {})
+        if outcome_class(io.get('o3')) != 'ok' or tag(io.get('o2')) != 'resolved':
+            continue
+        if tier != 'thorough' and len(jobs) >= sample_quick:
+            break
+        cobs = canon.canon_o3(io['o3'], 'impl')
+        files, crate = crate_of(c, cobs)
+        o2_items = {tuple(it[1][1:]): it for it in find(io['o2'], 'items')[1:]}
+        src, nassert = o4.nocore_source(crate, o2_items, crate.ps)
+        jobs.append((c, src, nassert, crate.ps))
+    def work(j):
+        c, src, nassert, ps = j
+        ok, detail = o4.nocore_check(src, prop + c[1], ps)
+        return c, nassert, ps, ok, detail
+    with ThreadPoolExecutor(max_workers=12) as ex:
+        res = list(ex.map(work, jobs))
+    total = 0
+    for (c, nassert, ps, ok, detail) in res:
+        info['compared'] += 1
+        if ok:
+            total += nassert
+            info['dist'].append('rustc-nightly-ps%d-confirms-layout' % ps)
+        else:
+            if any('E0588' in d for d in detail):
+                info['dist'].append('rustc-rejects-E0588 (open C13 finding: packed around aligned)')
+                continue
+            pyx = [d for d in detail if 'pyxis resolved' in d]
+            if pyx:
+                fs.append(Finding('O', prop + '/compiler-layout-differs-from-resolved', c[1], '; '.join(pyx)[:600]))
+            else:
+                fs.append(Finding('K', prop + '/layout-model-differs-from-rustc', c[1], '; '.join(detail)[:600]))
+    info['dist'] += ['rustc-layout-assertions'] * 0
+    info['rustc_layout_assertions'] = total
+    return fs, info
